@@ -174,12 +174,14 @@ def make_control(spec):
 
 
 def run_natural(b, save_at, *, atol, rtol, dt0, clip=False, eps=1e-8, driver="save_at", error_spec=None,
-                control_spec=None, fault=None, rec=None, budget=50_000, error_obj=None):
+                control_spec=None, fault=None, rec=None, budget=50_000, error_obj=None, keep_states=False, on_call=None):
     """Real solver, real estimator, real controller; recording proxies inject F1/F2."""
     rec = rec or Recorder()
     rs = RecSolver(b.solver, rec)
     inner_err = error_obj if error_obj is not None else make_error(b, error_spec or {})
     err = RecErr(inner_err, rec, fault)
+    err.keep_states = keep_states
+    err.on_call = on_call
     ctrl = RecCtrl(make_control(control_spec), rec, fault)
     damp = b.cfg["damp"]
     with flowseam.stepped(budget=budget):
